@@ -523,7 +523,10 @@ func commitSetup() {
 		panic(err)
 	}
 	testutils.BootstrapWithSingleStore(cluster)
-	commitStore, err = tikv.NewTestTiKVStore(client, pdClient, nil, nil, 0)
+	commitStore, err = tikv.NewTestTiKVStore(client, pdClient, func(c tikv.Client) tikv.Client {
+		theYesStore = &yesStore{Client: c}
+		return theYesStore
+	}, nil, 0)
 	if err != nil {
 		panic(err)
 	}
@@ -535,6 +538,7 @@ func commitSetup() {
 	}
 	commitStore.GetOracle().Close()
 	commitStore.SetOracle(o)
+	wgBaseline = tikv.VerifWGCount(commitStore)
 }
 
 func doCommit(waitUntil, maxSleepNs uint64, script []uint64) string {
@@ -942,6 +946,17 @@ func exec1(line string) string {
 			return "bad-op"
 		}
 		return doCommit(wu, ms, sc)
+	case f[0] == "chk-commitwait" && len(f) == 8:
+		st, ok := u(f[4])
+		c, ok2 := u(f[5])
+		ms, ok3 := u(f[6])
+		sc, ok4 := parseScript(f[7])
+		okm := f[1] == "2pc" || f[1] == "async" || f[1] == "1pc" || f[1] == "pipelined"
+		okb := f[3] == "normal" || f[3] == "expired" || f[3] == "fallback"
+		if !ok || !ok2 || !ok3 || !ok4 || !okm || !okb {
+			return "bad-op"
+		}
+		return doCommitTxn(f[1], f[2] == "1", f[3], st, c, ms, sc)
 	case f[0] == "stress" && len(f) == 4:
 		n, ok := u(f[1])
 		r, ok2 := u(f[2])
@@ -1433,6 +1448,76 @@ func (g *gen) commitOps(count int) {
 	}
 }
 
+// commitPathOps: real transactions through every commit mode × store behaviour × constraint class × wait budget
+func (g *gen) commitPathOps(reps int) {
+	r := g.r
+	g.run.Comment("case commit-paths")
+	type mv struct {
+		mode   string
+		causal int
+	}
+	modes := []mv{{"2pc", 0}, {"async", 0}, {"async", 1}, {"1pc", 0}, {"1pc", 1}, {"pipelined", 0}, {"2pc", 1}, {"pipelined", 1}}
+	sleeps := []uint64{0, uint64(time.Second), 5 * uint64(time.Millisecond), 400_000}
+	for _, m := range modes {
+		behs := []string{"normal", "expired"}
+		if m.mode == "async" || m.mode == "1pc" {
+			behs = []string{"normal", "fallback"}
+		}
+		for _, beh := range behs {
+			for class := 0; class < 4; class++ { // none, below current, slightly ahead (within the budget), far ahead
+				for _, ms := range sleeps {
+					for k := 0; k < reps; k++ {
+						curPhys := uint64(100_000 + r.Intn(1<<30))
+						cur := curPhys<<shift | uint64(r.Intn(1<<shift))
+						start := cur - uint64(1+r.Intn(1<<20))
+						var c uint64
+						switch class {
+						case 0:
+							c = 0
+						case 1:
+							c = cur - uint64(1+r.Intn(1<<19))
+							if r.Chance(25) {
+								c = cur - 1
+							}
+						case 2:
+							switch r.Intn(3) {
+							case 0:
+								c = cur + uint64(r.Intn(4)) // same millisecond: cur, cur+1, …
+							case 1:
+								c = cur + uint64(r.Intn(1<<shift))
+							default:
+								aheadMs := uint64(1 + r.Intn(4))
+								if lim := ms / uint64(time.Millisecond); lim > 0 && aheadMs > lim {
+									aheadMs = lim
+								}
+								c = (curPhys+aheadMs)<<shift | uint64(r.Intn(1<<shift))
+							}
+						default:
+							c = (curPhys+ms/uint64(time.Millisecond)+2+uint64(r.Intn(5000)))<<shift | uint64(r.Intn(1<<shift))
+						}
+						// PD: starts at cur and creeps forward, visiting the boundary c-1, c, c+1
+						var script []string
+						v := cur
+						n := 4 + r.Intn(12)
+						for j := 0; j < n; j++ {
+							script = append(script, strconv.FormatUint(v, 10))
+							switch {
+							case c > 0 && r.Chance(25):
+								v = c + uint64(r.Intn(3)) - 1
+							case c > v && r.Chance(30):
+								v = c + 1 + uint64(r.Intn(1<<18))
+							default:
+								v += uint64(r.Intn(1 << 19))
+							}
+						}
+						g.do(fmt.Sprintf("chk-commitwait %s %d %s %d %d %d %s", m.mode, m.causal, beh, start, c, ms, strings.Join(script, ",")))
+					}
+				}
+			}
+		}
+	}
+}
+
 func main() {
 	run := vx.Start()
 	defer run.Finish()
@@ -1558,6 +1643,11 @@ func main() {
 	g.pureOps(nPure)
 	g.intervalOps(nPure)
 	g.commitOps(nPure / 2)
+	nPaths := 2
+	if thorough {
+		nPaths = 40
+	}
+	g.commitPathOps(nPaths)
 
 	// 4. free-running stress (no race detector: a plain run of many goroutines)
 	g.run.Comment("case stress")
